@@ -34,6 +34,37 @@ LONG = [
 ]
 
 
+def exit_path_programs(n=5000):
+    """a frame (and whatever else a call takes) must be given back on every way out of the call: calls of named
+    functions, closures, builtins and members x the place where an exception leaves them, repeated far more often than
+    any limit allows frames"""
+    helpers = ("fn fail(i: int) -> int { if i >= 0 { throw(\"f\"); } i }\n"
+               "fn pass(x: int) -> int { x }\n"
+               "fn deep(n: int, i: int) -> int { if n == 0 { fail(i) } else { deep(n - 1, i) + 1 } }\n")
+    callees = {
+        "named": ("", "pass(%s)"),
+        "named2": ("", "pass(pass(%s))"),
+        "closure": ("let c = fn(x: int) -> int { x };", "c(%s)"),
+        "closure_in_named": ("let c = fn(x: int) -> int { x };", "pass(c(%s))"),
+        "builtin": ("", "println(%s)"),
+        "member": ("let l = [0];", "l.push(%s)"),
+        "list_literal": ("", "[1, pass(%s)]"),
+        "infix": ("", "1 + pass(%s)"),
+    }
+    exits = {"throw_in_argument": "fail(i)", "throw_in_body_of_argument": "deep(3, i)", "throw_in_second_argument_position": "pass(1) + fail(i)"}
+    out = []
+    for cn, (pre, call) in callees.items():
+        for en, arg in exits.items():
+            src = helpers + "fn main() { let n = 0; %s for i in 0..%d { try { %s; n += 100; } catch e { n += 1; } } println(n); }\n" % (pre, n, call % arg)
+            out.append(("exit_%s_%s" % (cn, en), src, "%d\n" % n))
+    # exceptions leaving the callee's own body, a loop in the callee left by return, a callee returning from inside try
+    out.append(("exit_body_throw", helpers + "fn main() { let n = 0; for i in 0..%d { try { deep(4, i); } catch e { n += 1; } } println(n); }\n" % n, "%d\n" % n))
+    out.append(("exit_return_in_loop", "fn f(i: int) -> int { for j in 0..10 { if j == 3 { return i; } } 0 }\nfn main() { let n = 0; for i in 0..%d { n += f(1); } println(n); }\n" % n, "%d\n" % n))
+    out.append(("exit_return_in_try", "fn f(i: int) -> int { try { return i; } catch e { return 0; } }\nfn main() { let n = 0; for i in 0..%d { n += f(1); } println(n); }\n" % n, "%d\n" % n))
+    out.append(("exit_return_in_catch", "fn f(i: int) -> int { try { throw(\"x\"); } catch e { return i; } }\nfn main() { let n = 0; for i in 0..%d { n += f(1); } println(n); }\n" % n, "%d\n" % n))
+    return out
+
+
 def needs(trace):
     cs = sh = mp = 0
     for e in trace:
@@ -53,7 +84,8 @@ def run(args):
                        "need: need <= limit => normal completion; need > limit + 50 (one quantum) => the corresponding "
                        "fatal interrupt; in between either; never a host crash; all traces validated against HmsVM "
                        "(LimitOvershoot, LoopNeutral, ReturnBalanced); long-running bounded programs complete under tight "
-                       "limits; interpreter: call depth vs its limit; non-trivial = distinct (program, limits, backend)" % sizes)
+                       "limits, among them calls of named functions / closures / builtins / members left by an exception in an argument, in the "
+                       "callee or in a nested call, repeated far beyond every limit; interpreter: call depth vs its limit; non-trivial = distinct (program, limits, backend)" % sizes)
     pool = C.Pool(C.build_worker())
     progs = shapes(sizes)
     GEN = {"call": 4000, "stack": 20000, "mem": 200000}
@@ -117,11 +149,12 @@ def run(args):
             owners.append({"shape": kind, "size": d, "limits": lim})
     # ---- bounded programs run indefinitely under tight limits
     TIGHT = {"call": 12, "stack": 40, "mem": 64}
+    LONGS = LONG + exit_path_programs(5000 if thorough else 1500)
     res = pool.map([{"op": "run", "id": i, "a": {"modules": {"main": s}, "entry": "main", "backend": b, "limits": TIGHT,
                                                  "tree_limit": 12, "timeout_ms": 60000}}
-                    for i, (n, s, o) in enumerate(LONG) for b in ("vm", "tree")], timeout=90)
+                    for i, (n, s, o) in enumerate(LONGS) for b in ("vm", "tree")], timeout=90)
     k = 0
-    for (name, src, out) in LONG:
+    for (name, src, out) in LONGS:
         for b in ("vm", "tree"):
             r = res[k]
             k += 1
